@@ -12,11 +12,14 @@ package xml
 //@ func xml.InflateAndDecode
 //@   names out, err
 //@   property C14 C18
-//@   assigns materialised
+//@   assigns materialised, mayfail
 //@   ensures C18.unknown-encoding-is-error: encoding != "" && encoding != EncodingDeflate ==> err != nil && len(out) == 0
 //@   ensures C18.bad-base64-is-error: b64 && !b64ok(message) ==> err != nil
 //@   ensures C18.plain: err == nil && encoding == "" ==> string(out) == payload(b64, message)
 //@   ensures C14,C18.inflates-all-or-fails: err == nil && encoding == EncodingDeflate ==> string(out) == inflate(payload(b64, message))
+//@   ensures C18.deflate-decoding-fails-only-for-a-reason: encoding == EncodingDeflate && err != nil ==>
+//@             (b64 && !b64ok(message)) || !inflateOK(payload(b64, message)) || len(inflate(payload(b64, message))) > MaxInflatedSize
+//@   ensures C18.plain-decoding-fails-only-for-bad-base64: encoding == "" && err != nil ==> b64 && !b64ok(message)
 //@   ensures C14.result-bounded: err == nil && encoding == EncodingDeflate ==> len(out) <= maxInflated()
 //@   ensures C14.materialisation-bounded: materialised <= old(materialised) + maxInflated() + 1
 //@   canary C14.canary-always-fails: err != nil
